@@ -35,7 +35,7 @@ seq_prop("C04", ["multi", "ext", "multi_faulty"], ["multi", "ext", "multi_faulty
          "sequential histories over 2-3 objects bound to one resource and retained child handles of each (including stale ones), every mutator incl. clear/reset on nested children; the 'multi_faulty' stream makes 15% of the arguments invalid and 25% of keys/indices absent so that histories contain operations that raised")
 seq_prop("C11", ["invalid"], ["invalid"],
          "programs in which 35% of the values passed to mutating entry points carry exactly one planted forbidden item (non-string key, non-JSON leaf, dotted key for attr families) at a random depth 0-3; targets are roots, nested dicts and nested lists")
-seq_prop("C12", ["single", "fresh"], ["single", "fresh", "ext"],
+seq_prop("C12", ["single", "fresh", "multi"], ["single", "fresh", "ext", "multi"],
          "values drawn from a scalar alphabet chosen to collide under == (0, False, 0.0, 1, True, 1.0, '', None, big ints, boundary floats, escape-heavy and astral strings) nested to depth 3, stored through every entry point and read back through a fresh object with strict leaf types")
 seq_prop("C17", ["single", "ext"], ["single", "ext"],
          "programs with 35-45% read operations on existing and on missing resources; after every read the resource is re-read independently and must be byte-for-byte what it was (content and existence)")
@@ -194,6 +194,9 @@ def _c10_tasks(tier, seed):
         out.append(("unit_c10_filename", (fam, seed)))
     out += _conc_tasks([("bufctx", [1, 2]), ("buffered", [1, 2]), ("writers", [0, 1]), ("rebind", [0, 1, 2, 3])],
                        (10, 1, 120, 4), (60, 2, 1500, 30))(tier, seed)
+    # mirror-image writes with synced operands: a deadlock needs two preemptions (after the
+    # validation of the operand, before the second lock), the programs have two operations
+    out += _conc_tasks([("cross", [0, 1, 2, 3])], (6, 2, 400, 0), (30, 3, 3000, 10))(tier, seed)
     return out
 
 
